@@ -171,13 +171,18 @@ def preludeTokens : List PToken :=
   [⟨['5'], .number, 0, 0⟩, ⟨[' '], .whitespace, 0, 0⟩, ⟨['+'], .plusSign, 0, 0⟩, ⟨[' '], .whitespace, 0, 0⟩, ⟨['5'], .number, 0, 0⟩]
 
 /-- parse + build one token list into `d` -/
-def buildTokens (tokens : List PToken) (d : BState Float) : Outcome (Option (BState Float × Nat)) :=
+def buildTokens (tokens : List PToken) (d : BState Float) (nocheck : Bool := false) : Outcome (Option (BState Float × Nat)) :=
   match parse tokens with
   | .err _ => .ok none
   | .panic s => .panic s
   | .fuelOut => .fuelOut
   | .ok r =>
-    Outcome.bind (build parseFloatImpl (defaultFuel r.nodes.size) r.root r.nodes d) fun res => .ok (some res)
+    if nocheck then
+      -- store name `nocheck`: `build` without `validate_parse_tree` (the code before commit 467354e); analysis only
+      if r.nodes.isEmpty then .ok (some (pushInstr d .endExpression none none, 0))
+      else Outcome.bind (buildCore parseFloatImpl (defaultFuel r.nodes.size) r.root r.nodes d) fun res => .ok (some res)
+    else
+      Outcome.bind (build parseFloatImpl (defaultFuel r.nodes.size) r.root r.nodes d) fun res => .ok (some res)
 
 def buildPrelude : Nat → BState Float → Outcome (BState Float)
   | 0, d => .ok d
@@ -189,12 +194,12 @@ def buildPrelude : Nat → BState Float → Outcome (BState Float)
 
 def buildCase (f : List String) : String :=
   match f with
-  | _ :: _ :: _store :: npre :: fields =>
+  | _ :: _ :: store :: npre :: fields =>
     match npre.toNat?, buildTokenFields fields with
     | some npre, some tokens =>
       match buildPrelude npre BState.empty with
       | .ok d =>
-        match buildTokens tokens d with
+        match buildTokens tokens d (store == "nocheck") with
         | .ok none => "parseerr"
         | .ok (some (d, entry)) => showBState d entry
         | .err _ => "err"
